@@ -123,10 +123,39 @@ def run(chk):
             m_fail.append(("encoding-name", nm, got, want))
         elif a != b:
             t_dis.append(("encoding-name", nm, a, b))
+    # ---- Char, production [2], wherever a character may stand: text, attribute value, comment, PI data, CDATA section, system
+    # literal, entity value, attribute default - in content, in the prolog, in the internal subset, after the root.  The class
+    # tables above compare `is_char` itself; here every PLACE that has to ask it is asked (round-8 seed C18-L: PI data and CDATA
+    # sections read by a plain substring search; C18-K: a fast path that took every non-ASCII value for a Char)
+    def is_char_(cp):
+        return cp in (0x9, 0xA, 0xD) or 0x20 <= cp <= 0xD7FF or 0xE000 <= cp <= 0xFFFD or 0x10000 <= cp <= 0x10FFFF
+    places = ["<a>%s</a>", "<a b='%s'/>", "<!--%s--><a/>", "<?p %s?><a/>", "<a><![CDATA[%s]]></a>", "<!DOCTYPE a SYSTEM '%s'><a/>",
+              "<!DOCTYPE a [<!ENTITY e '%s'>]><a/>", "<!DOCTYPE a [<!ATTLIST a d CDATA '%s'>]><a/>", "<!DOCTYPE a [<?p %s?>]><a/>",
+              "<!DOCTYPE a [<!--%s-->]><a/>", "<a/><?p %s?>", "<a/><!--%s-->", "<a><b>x%sy</b><?q z%s?></a>"]
+    c_lines, c_meta = [], []
+    for cp in (0x1, 0x8, 0xB, 0xC, 0xE, 0x1F, 0xFFFE, 0xFFFF, 0x9, 0xA, 0xD, 0x7F, 0x85, 0xD7FF, 0xE000, 0xFFFD, 0x10000, 0x10FFFF):
+        for pl in places:
+            t_ = pl.replace("%s", chr(cp))
+            c_lines.append(lib.req("accept", t_))
+            c_meta.append((cp, pl))
+    c_impl, c_model = lib.both(c_lines, timeout=600)
+    for (cp, pl), a, b in zip(c_meta, c_impl, c_model):
+        chk.count(["char-place", cp, pl], nontrivial=True)
+        got = a.startswith("ok")
+        if got != is_char_(cp):
+            m_fail.append(("char-place", "U+%04X in %s" % (cp, pl), "ok" if got else "err", "ok" if is_char_(cp) else "err"))
+        elif a != b:
+            t_dis.append(("char-place", "U+%04X in %s" % (cp, pl), a, b))
+    chk.cov["characters_in_places"] = len(c_lines)
     chk.cov["encoding_names_probed"] = len(enc_names)
     chk.cov["disagreements_checked"] = len(t_dis)
     chk.cov["monitor_failures"] = len(m_fail)
     for k, s, a, sp in m_fail[:3]:
+        if k == "char-place":
+            chk.violation("charplace_%s" % lib.enc(s)[:50],
+                          "property C18: Char, production [2]: %s - the document is %s, production [2] says %s\n"
+                          % (s, "accepted" if a == "ok" else "refused", "accept" if sp == "ok" else "refuse"))
+            continue
         if k == "encoding-name":
             doc_ = '<?xml version="1.0" encoding="%s"?><a/>' % s
             chk.violation("encname_%s" % lib.enc(s)[:40],
